@@ -45,6 +45,17 @@ def _pairs(tier, seed):
         fams.append((ra, -90.0 + rng.choice([0, 1e-9, 1e-5]), rng.uniform(0, 360), rng.uniform(-90, 90)))
         fams.append((359.0 + rng.uniform(0, 1), dec, rng.uniform(0, 1), dec + rng.uniform(-1, 1) * 0.5))
         fams.append((ra, dec, ra, dec))
+    # dense families where the cosine of the separation rounds to just outside [-1, 1] for about one pair in a hundred:
+    # nearly identical and nearly antipodal pairs, 1e-9 .. 1e-6 degree off
+    for _ in range(3000):
+        ra, dec = sph()
+        d = 10.0 ** rng.uniform(-9, -6)
+        ang = rng.uniform(0, 2 * np.pi)
+        dra, ddec = d * np.cos(ang) / max(np.cos(np.deg2rad(dec)), 1e-3), d * np.sin(ang)
+        if rng.random() < 0.5:
+            fams.append((ra, dec, ra + dra, float(np.clip(dec + ddec, -90, 90))))
+        else:
+            fams.append((ra, dec, (ra + 180.0 + dra) % 360.0, float(np.clip(-dec + ddec, -90, 90))))
     return np.array(fams).T
 
 
@@ -84,6 +95,10 @@ def sep_statement(ra1, dec1, ra2, dec2):
     r = co.sphdist(np.deg2rad(ra1), np.deg2rad(dec1), np.deg2rad(ra2), np.deg2rad(dec2), units=["rad", "rad"])
     if np.abs(np.rad2deg(r) - true).max() > 1e-11:
         return "radian units"
+    # longitudes are angles: negative radians and a full turn more are the same directions
+    r = co.sphdist(np.deg2rad(ra1) - 2 * np.pi, np.deg2rad(dec1), np.deg2rad(ra2) + 2 * np.pi, np.deg2rad(dec2), units=["rad", "rad"])
+    if np.abs(np.rad2deg(r) - true).max() > 1e-10:
+        return "radian units, longitudes shifted by a full turn"
     d2 = co.sphdist(np.deg2rad(ra1), np.deg2rad(dec1), np.deg2rad(ra2), np.deg2rad(dec2), units=["rad", "deg"])
     if np.abs(d2 - true).max() > 1e-11:
         return "mixed units"
@@ -272,6 +287,14 @@ def rotate_shift_statement(lon, lat, angles, shifts):
         got = np.asarray(_unit(lo, la), dtype="f8")
         if np.abs(img - got).max() > 1e-11:
             return "rotate does not act as one rotation matrix"
+        # undone by its inverse: for this function's angle convention the inverse rotation is rotate(psi, -theta, phi)
+        bl, bb = co.rotate(psi, -theta, phi, lo, la)
+        if true_sep(bl, bb, lon, lat).max() > 1e-5:       # the statement's tolerance for inverses
+            return "rotate(%r, %r, %r) is not undone by rotate(psi, -theta, phi)" % (phi, theta, psi)
+        # one family of rotations: a tilt of a billionth of a degree moves no point by more than that
+        tl, tb = co.rotate(phi, theta + 1e-9, psi, lon, lat)
+        if true_sep(tl, tb, lo, la).max() > 1e-5:
+            return "rotate(%r, %r, %r) jumps when the tilt changes by 1e-9 degree" % (phi, theta, psi)
     base = lon % 360.0
     base = base[base < 360.0]
     for sh in shifts:
@@ -305,7 +328,8 @@ def _dom_rot(tier, seed):
     n = 200 if tier == "quick" else 20000
     lon = np.array([rng.uniform(0, 360) for _ in range(n)] + [0.0, 359.999999, 350.0, 10.0, 180.0])
     lat = np.array([float(np.rad2deg(np.arcsin(rng.uniform(-1, 1)))) for _ in range(n)] + [90.0, -90.0, 0.0, 0.0, 45.0])
-    angles = [(0.0, 0.0, 0.0), (10.0, 20.0, 30.0), (0.0, 90.0, 0.0), (275.0, -63.0, 33.0), (0.0, 180.0, 0.0)] + \
+    angles = [(0.0, 0.0, 0.0), (10.0, 20.0, 30.0), (0.0, 90.0, 0.0), (275.0, -63.0, 33.0), (0.0, 180.0, 0.0),
+              (0.0, 0.0, 30.0), (10.0, 0.0, -40.0), (15.0, 180.0, 5.0), (0.0, 360.0, 20.0), (-30.0, -0.0, 75.0)] + \
         [(rng.uniform(-360, 360), rng.uniform(-180, 180), rng.uniform(-360, 360)) for _ in range(5 if tier == "quick" else 200)]
     shifts = [0.0, 10.0, -10.0, 90.0, -90.0, 360.0, -360.0, 370.0, -725.0, 1e-9, -1e-9, 180.0, 359.999999] + \
         [rng.uniform(-1000, 1000) for _ in range(10)]
